@@ -4,6 +4,7 @@ of read().  Oracle of C07."""
 import copy
 import io
 import itertools
+import os
 import warnings
 
 import numpy as np
@@ -79,6 +80,8 @@ def draw_recording(rng, idx, fmt=None):
             s["peer_short"] = {"comp": rng.choice(["N", "E", "Z"]), "by": rng.randint(1, 20)}
     if fmt in F.TEXT and rng.random() < 0.2:
         s["trailing_blank"] = rng.choice([1, 2])
+    if rng.random() < 0.15:
+        s["as_pathlib"] = True
     s["dfn"] = rng.choice([None, None, 0.0, 33.5, 400.0, -15.0])
     return s
 
@@ -450,6 +453,7 @@ def compare(ctx, got, exp, dfn, what, key, paths):
                   f"({'explicit argument' if dfn is not None else 'file metadata'})", key={**key, "src": "arg" if dfn is not None else "file"})
     names = got.meta.get("file name(s)")
     flat = [names] if isinstance(names, str) else list(names or [])
+    flat = [str(x) for x in flat]
     ctx.check(sorted(flat) == sorted(paths), "file_names_meta", f"{what}: meta file name(s) {flat} != {paths}", key=key)
 
 
@@ -466,7 +470,7 @@ def obspy_shim(st, real=None):
         with warnings.catch_warnings():
             warnings.simplefilter("ignore")
             if is_sim(fname):
-                with st.fs.open(fname, "rb") as fh:      # through SimFS: read faults apply here too
+                with st.fs.open(os.fspath(fname) if isinstance(fname, os.PathLike) else fname, "rb") as fh:   # through SimFS
                     data = fh.read()
                 return real(io.BytesIO(data), *args, **kwargs)
             return real(fname, *args, **kwargs)
@@ -580,6 +584,9 @@ def execute(triple, prop):
 
 def fname_arg(entry, unwrap=True):
     p = entry["paths"]
+    if entry["spec"].get("as_pathlib"):
+        import pathlib
+        p = [pathlib.Path(x) for x in p]                 # file names may be path objects
     if len(p) == 1 and unwrap:
         return p[0]
     return list(p)
